@@ -44,6 +44,9 @@ func newSigUniverse(rng *rand.Rand) *sigUniverse {
 		}
 		u.pems = append(u.pems, pemOf(x))
 	}
+	// PEM text that carries explanatory text in front of the armour (openssl pkcs12 / x509 -text output)
+	u.pems = append(u.pems, append([]byte("Bag Attributes\n    friendlyName: verif\nsubject=CN = x\n"), pemOf(a)...),
+		append([]byte("Certificate:\n    Data:\n        Version: 3 (0x2)\n"), pemOf(d)...))
 	return u
 }
 
@@ -57,6 +60,13 @@ func (u *sigUniverse) entry(rng *rand.Rand, decodableOnly bool) (t util.EFIGUID,
 	case k < 3:
 		return gSHA256, o, pick(rng, u.hashes), "sha256"
 	case k < 5:
+		if rng.Intn(8) == 0 {
+			// an entry without data (SignatureSize 16): given as nil or as an empty slice
+			if rng.Intn(2) == 0 {
+				return gX509, o, nil, "x509-empty"
+			}
+			return gX509, o, []byte{}, "x509-empty"
+		}
 		return gX509, o, pick(rng, u.ders), "x509-der"
 	case k < 7:
 		return gX509, o, pick(rng, u.pems), "x509-pem"
